@@ -7,6 +7,7 @@ package harness
 // through the real buffer stream; same draws, same verdict.
 
 import (
+	"flag"
 	"fmt"
 	"hash/fnv"
 	"strings"
@@ -152,6 +153,30 @@ func c04Units(tier string, seed int64) []Unit {
 					if len(o1.res.Pruned) != len(o1.res.Data) {
 						c.Count("pruned_recordings", 1)
 					}
+					// (iii) the same words with all bits above the requested width set: minimization candidates,
+					// fail files and fuzz inputs are raw 64-bit words, the stream must mask them - and what it
+					// records must again survive prune() and replay
+					if len(src.Trace) == len(o1.res.Data) || src.Ended {
+						raw := make([]uint64, len(o1.res.Data))
+						for i := range raw {
+							raw[i] = o1.res.Data[i] | ^mask(src.Trace[i].N)
+						}
+						o5, _ := runWith(body, func(prop func(*rapid.T)) rapid.VerifResult { return rapid.VerifRunBuf(tb, raw, false, prop) })
+						c.R.Evals++
+						if o5.res.Kind != k || o5.draws != o1.draws {
+							c.Violate(Violation{Sig: "C04 high-bits-change-the-run prog=" + p.Name,
+								Detail: fmt.Sprintf("run: %s draws %s\nsame words with the unused high bits set: %s %q draws %s", kindName(k), o1.draws, kindName(o5.res.Kind), o5.res.Msg, o5.draws),
+								Replay: map[string]any{"engine": "buffer", "program": p.Name, "words": raw}, Devs: devs})
+						} else if o5.res.PruneErr == "" {
+							o6, _ := runWith(body, func(prop func(*rapid.T)) rapid.VerifResult { return rapid.VerifRunBuf(tb, o5.res.Pruned, false, prop) })
+							c.R.Evals++
+							if o6.res.Kind != k || o6.draws != o1.draws {
+								c.Violate(Violation{Sig: "C04 prune-replay-of-buffer-run-diverges prog=" + p.Name,
+									Detail: fmt.Sprintf("buffer run on raw words: %s draws %s (recorded %s, pruned %s)\nreplay of its pruned recording: %s %q draws %s", kindName(k), o5.draws, fmtWords(o5.res.Data), fmtWords(o5.res.Pruned), kindName(o6.res.Kind), o6.res.Msg, o6.draws),
+									Replay: map[string]any{"engine": "buffer", "program": p.Name, "words": raw, "pruned": o5.res.Pruned}, Devs: devs})
+							}
+						}
+					}
 					o3, _ := runWith(body, func(prop func(*rapid.T)) rapid.VerifResult { return rapid.VerifRunBuf(tb, o1.res.Pruned, false, prop) })
 					c.R.Evals++
 					if o3.res.Kind != k || o3.draws != o1.draws || o3.res.Msg != o1.res.Msg {
@@ -225,6 +250,44 @@ func c04Units(tier string, seed int64) []Unit {
 							Detail: fmt.Sprintf("seed %d: run draws %s; pruned replay %s %q draws %s", sd, a.draws, kindName(r3.res.Kind), r3.res.Msg, r3.draws),
 							Replay: map[string]any{"engine": "seed", "program": p.Name, "seed": sd, "words": a.res.Data, "pruned": a.res.Pruned}, Devs: 100})
 					}
+				}
+			}
+		}
+	}})
+	units = append(units, Unit{Name: "C04/short-mode-history", Run: func(c *Ctx) {
+		// -short changes how much work is done, never what the same bits mean - and a check must
+		// not leave anything behind that changes later checks in the process
+		defer flag.Set("test.short", "false")
+		tb := NewTB("C04")
+		tb.Quiet = true
+		for _, short := range []string{"false", "true"} {
+			flag.Set("test.short", short)
+			for _, p := range MachineProgs() {
+				body := p.New()
+				for s := 0; s < 60; s++ {
+					sd := uint64(seed)*31 + uint64(s) + 5
+					first, _ := runWith(body, func(prop func(*rapid.T)) rapid.VerifResult { return rapid.VerifRunSeed(tb, sd, false, prop) })
+					for rep := 0; rep < 6; rep++ {
+						again, _ := runWith(body, func(prop func(*rapid.T)) rapid.VerifResult { return rapid.VerifRunSeed(tb, sd, false, prop) })
+						c.R.Evals++
+						if again.draws != first.draws || again.res.Kind != first.res.Kind {
+							c.Violate(Violation{Sig: "C04 history-dependence short=" + short + " prog=" + p.Name,
+								Detail: fmt.Sprintf("seed %d, -short=%s: first run draws %s; run %d in the same process draws %s", sd, short, first.draws, rep+2, again.draws),
+								Replay: map[string]any{"engine": "seed", "program": p.Name, "seed": sd, "short": short}})
+						}
+						if first.res.Kind != rapid.VerifInvalid {
+							rb, _ := runWith(body, func(prop func(*rapid.T)) rapid.VerifResult { return rapid.VerifRunBuf(tb, first.res.Data, false, prop) })
+							c.R.Evals++
+							if rb.draws != first.draws {
+								c.Violate(Violation{Sig: "C04 history-dependence short=" + short + " prog=" + p.Name,
+									Detail: fmt.Sprintf("seed %d, -short=%s: run draws %s; replay of its recording later in the process draws %s", sd, short, first.draws, rb.draws),
+									Replay: map[string]any{"engine": "seed", "program": p.Name, "seed": sd, "short": short}})
+							}
+						}
+					}
+					c.R.States++
+					c.R.Transitions += 12
+					c.Outcome(short+p.Name+first.draws, true)
 				}
 			}
 		}
